@@ -10,7 +10,7 @@ use std::sync::{Arc, Mutex};
 
 const LIT: [&str; 14] = ["a", "b", " ", "{", "}", ":", "-", "#", "=", "x y", "1", ".", "{}", "é"];
 const NAMES: [&str; 5] = ["x", "y", "long_name", "a.b", "n1"];
-const VALS: [&str; 12] = ["", "v", "two words", "${x}", "%{y}", "\\${x}", "a}b", "$", "%", " lead", "q\"uote", "back\\slash"];
+const VALS: [&str; 17] = ["", "v", "two words", "${x}", "%{y}", "\\${x}", "a}b", "$", "%", " lead", "q\"uote", "back\\slash", "end\n", "a b\t", "w\r\n", "trail ", "\u{a0}nb"];
 
 pub fn gen(r: &mut Rng) -> Value {
     let mut env = serde_json::Map::new();
